@@ -123,5 +123,8 @@ def run(check, ctx):
     # ChaCha20: every released byte is the RFC 8439 key stream of the caller's position (seek/encrypt histories)
     from . import c_chacha
     c_chacha.chacha_tables(check, ctx)
+    # the native OCB loops over a concrete bijection (doubling is not XOR-linear, so no symbolic cipher here)
+    from . import c_ocb
+    c_ocb.ocb_tables(check, ctx)
     check.undecided.append("the block primitives beyond the published vectors (AES/DES/CAST/Blowfish/ARC2/ARC4), Salsa20, GHASH/OCB "
                            "arithmetic in C; mode geometries outside the enumerated table")
